@@ -298,53 +298,64 @@ def run(chk):
         bs = [b for k, b in P.bodies.items() if "MinLevelPathMap" in k and k.endswith("::from_iter") and "FromIterator" in k]
         if not bs:
             raise mir.AnchorMissing("impl FromIterator for MinLevelPathMap")
-        b = bs[0]
-        NEUTRAL = ("new", "default", "into_iter", "next", "min_level", "into", "from", "drop", "drop_in_place", "for_each", "by_ref")
-        bodies = [b] + P.closures_of(b)
-        for x in bodies:
-            for c in x.calls(normal_only=True):
-                if c.callee.get("name") not in NEUTRAL:
-                    return False, ("MinLevelPathMap::from_iter passes the pairs through %s at %s before registering them: reordering, "
-                                   "de-duplicating or dropping pairs changes which of two registrations of one path wins "
-                                   "(min_level overwrites, so the last one must)" % (c.callee.get("name"), c.loc)), [], c.loc
-        regs = [(x, c) for x in bodies for c in x.calls(normal_only=True) if c.callee.get("name") == "min_level"]
-        if len(regs) != 1:
-            return False, "MinLevelPathMap::from_iter registers through %d min_level calls (expected one per pair)" % len(regs), [], b.span
-        x, reg = regs[0]
-        if x is b:
-            nx = [c for c in b.calls(normal_only=True) if c.callee.get("name") == "next"]
-            if len(nx) != 1 or not b.in_cycle(nx[0].bb) or not b.in_cycle(reg.bb):
-                return False, "MinLevelPathMap::from_iter does not register inside one loop over the input", [], reg.loc
-            it = b.origin(nx[0].args[0], through_calls=("by_ref",))
-            while it[0] in ("ref", "deref"):
-                it = it[1]
-            if not (it[0] == "call" and it[1].callee.get("name") == "into_iter" and mir.o_is_param(b.origin(it[1].args[0]), idx=1)):
-                return False, "MinLevelPathMap::from_iter iterates %s, not the input itself" % o_str(it), [], nx[0].loc
-            # every pair the iterator yields is registered before the next is taken
-            some = [n for v, n in b.blocks[[i for i, t in b.switches() if (lambda so: so[0] == "discr" and so[1][0] == "call" and so[1][1].bb == nx[0].bb)(b.switch_origin(i))][0]]["term"]["targets"] if v == "1"]
-            if not some or not b.must_pass([reg.bb], start=some[0], ends=[nx[0].bb]):
-                return False, "a pair taken from the input can reach the next iteration without being registered", [], reg.loc
-            for i, want in ((1, "0"), (2, "1")):
-                o = b.origin(reg.args[i])
-                f = o
-                while f[0] in ("cast", "copy"):
-                    f = f[1]
-                if not (f[0] == "field" and str(f[2]) == want and (lambda r: r[0] == "call" and r[1].bb == nx[0].bb)(mir.o_root(f[1]))):
-                    return False, "min_level argument %d is %s, not component %s of the pair just taken" % (i, o_str(o), want), [], reg.loc
-        else:
-            fe = [c for c in b.calls(normal_only=True) if c.callee.get("name") == "for_each"]
-            if len(fe) != 1:
-                return False, "MinLevelPathMap::from_iter registers from a closure that is not the body of one for_each", [], reg.loc
-            it = b.origin(fe[0].args[0])
-            if not (it[0] == "call" and it[1].callee.get("name") == "into_iter" and mir.o_is_param(b.origin(it[1].args[0]), idx=1)):
-                return False, "MinLevelPathMap::from_iter iterates %s, not the input itself" % o_str(it), [], fe[0].loc
-            if not x.must_pass([reg.bb]):
-                return False, "the for_each body can return without registering its pair", [], reg.loc
-        recv = mir.o_root(x.origin(reg.args[0]))
-        ret = mir.o_root(b.origin(0))
-        if not (ret[0] == "call" and ret[1].callee.get("name") in ("new", "default")):
-            return False, "MinLevelPathMap::from_iter returns %s, not the map it filled" % o_str(ret), [], b.span
-        return True, "", ["%s: one min_level(pair.0, pair.1) per item of into_iter(input), in input order, into the returned map" % reg.loc]
+        # an inherent function of the same name would be picked ahead of the trait's by every `MinLevelPathMap::from_iter(..)` call
+        # an inherent function of the same name is picked ahead of the trait's by every `MinLevelPathMap::from_iter(..)` call: it is held to
+        # the same discipline
+        shadow = [b2 for k, b2 in P.bodies.items() if "MinLevelPathMap" in k and re.search(r"::from_iter$", k) and "FromIterator" not in k and not b2.is_closure]
+        def check_one(b):
+            NEUTRAL = ("new", "default", "into_iter", "next", "min_level", "into", "from", "drop", "drop_in_place", "for_each", "by_ref")
+            bodies = [b] + P.closures_of(b)
+            for x in bodies:
+                for c in x.calls(normal_only=True):
+                    if c.callee.get("name") not in NEUTRAL:
+                        return False, ("MinLevelPathMap::from_iter passes the pairs through %s at %s before registering them: reordering, "
+                                       "de-duplicating or dropping pairs changes which of two registrations of one path wins "
+                                       "(min_level overwrites, so the last one must)" % (c.callee.get("name"), c.loc)), [], c.loc
+            regs = [(x, c) for x in bodies for c in x.calls(normal_only=True) if c.callee.get("name") == "min_level"]
+            if len(regs) != 1:
+                return False, "MinLevelPathMap::from_iter registers through %d min_level calls (expected one per pair)" % len(regs), [], b.span
+            x, reg = regs[0]
+            if x is b:
+                nx = [c for c in b.calls(normal_only=True) if c.callee.get("name") == "next"]
+                if len(nx) != 1 or not b.in_cycle(nx[0].bb) or not b.in_cycle(reg.bb):
+                    return False, "MinLevelPathMap::from_iter does not register inside one loop over the input", [], reg.loc
+                it = b.origin(nx[0].args[0], through_calls=("by_ref",))
+                while it[0] in ("ref", "deref"):
+                    it = it[1]
+                if not (it[0] == "call" and it[1].callee.get("name") == "into_iter" and mir.o_is_param(b.origin(it[1].args[0]), idx=1)):
+                    return False, "MinLevelPathMap::from_iter iterates %s, not the input itself" % o_str(it), [], nx[0].loc
+                # every pair the iterator yields is registered before the next is taken
+                some = [n for v, n in b.blocks[[i for i, t in b.switches() if (lambda so: so[0] == "discr" and so[1][0] == "call" and so[1][1].bb == nx[0].bb)(b.switch_origin(i))][0]]["term"]["targets"] if v == "1"]
+                if not some or not b.must_pass([reg.bb], start=some[0], ends=[nx[0].bb]):
+                    return False, "a pair taken from the input can reach the next iteration without being registered", [], reg.loc
+                for i, want in ((1, "0"), (2, "1")):
+                    o = b.origin(reg.args[i])
+                    f = o
+                    while f[0] in ("cast", "copy"):
+                        f = f[1]
+                    if not (f[0] == "field" and str(f[2]) == want and (lambda r: r[0] == "call" and r[1].bb == nx[0].bb)(mir.o_root(f[1]))):
+                        return False, "min_level argument %d is %s, not component %s of the pair just taken" % (i, o_str(o), want), [], reg.loc
+            else:
+                fe = [c for c in b.calls(normal_only=True) if c.callee.get("name") == "for_each"]
+                if len(fe) != 1:
+                    return False, "MinLevelPathMap::from_iter registers from a closure that is not the body of one for_each", [], reg.loc
+                it = b.origin(fe[0].args[0])
+                if not (it[0] == "call" and it[1].callee.get("name") == "into_iter" and mir.o_is_param(b.origin(it[1].args[0]), idx=1)):
+                    return False, "MinLevelPathMap::from_iter iterates %s, not the input itself" % o_str(it), [], fe[0].loc
+                if not x.must_pass([reg.bb]):
+                    return False, "the for_each body can return without registering its pair", [], reg.loc
+            recv = mir.o_root(x.origin(reg.args[0]))
+            ret = mir.o_root(b.origin(0))
+            if not (ret[0] == "call" and ret[1].callee.get("name") in ("new", "default")):
+                return False, "MinLevelPathMap::from_iter returns %s, not the map it filled" % o_str(ret), [], b.span
+            return True, "", ["%s: one min_level(pair.0, pair.1) per item of into_iter(input), in input order, into the returned map" % reg.loc]
+        out = []
+        for b in bs[:1] + shadow:
+            r = check_one(b)
+            if not r[0]:
+                return r
+            out += r[2]
+        return True, "", out
     chk.ob("C17.R5:from_iter", "collecting (path, level) pairs registers each pair once, in the order given (so the last of two "
            "registrations of one path wins, as it does for min_level calls)", from_iter)
 
